@@ -63,8 +63,11 @@ def ask_all(cs, reqs):
     return [c.recv() for c in cs]
 
 
-def run_cli(argv, hashseed="0", cwd=None, timeout=120, input_text=None):
+def run_cli(argv, hashseed="0", cwd=None, timeout=120, input_text=None, extra_env=None):
     """real `python -m json_to_models` subprocess -> (returncode, stdout, stderr)"""
-    p = subprocess.run([PY, "-m", "json_to_models"] + list(argv), env=child_env(hashseed), cwd=cwd or VERIF,
+    env = child_env(hashseed)
+    if extra_env:
+        env.update(extra_env)
+    p = subprocess.run([PY, "-m", "json_to_models"] + list(argv), env=env, cwd=cwd or VERIF,
                        capture_output=True, text=True, encoding="utf-8", timeout=timeout, input=input_text)
     return p.returncode, p.stdout, p.stderr
